@@ -539,12 +539,14 @@ pub fn pass_bottom_up(rec: &SessionRec, stats: &mut BuStats) -> Vec<Finding> {
   let mut scheduled: BTreeSet<u32> = BTreeSet::new();
   let mut executed: BTreeMap<u32, usize> = BTreeMap::new();
   let mut justified: BTreeSet<u32> = BTreeSet::new();
+  let mut failed_check_owners: BTreeMap<u32, usize> = BTreeMap::new();
   let mut depth = 0usize;
   for i in start..end {
     let ev = &evs[i];
     match ev {
       Ev::Check { owner, verdict, .. } => {
         if *verdict != Verdict::Consistent { scheduled.insert(*owner); justified.insert(*owner); expect_schedule_task(evs, i, *owner, &mut out); }
+        if matches!(verdict, Verdict::Err(_)) && executed.get(owner).is_none() { failed_check_owners.insert(*owner, i); }
       }
       Ev::OCheck { owner, consistent, .. } => {
         if !*consistent { scheduled.insert(*owner); justified.insert(*owner); expect_schedule_task(evs, i, *owner, &mut out); } else { stats.cutoffs += 1; }
@@ -575,6 +577,7 @@ pub fn pass_bottom_up(rec: &SessionRec, stats: &mut BuStats) -> Vec<Finding> {
           }
         }
         scheduled.remove(task);
+        failed_check_owners.remove(task);
         depth += 1;
       }
       Ev::ExecEnd { .. } => { depth = depth.saturating_sub(1); }
@@ -587,6 +590,9 @@ pub fn pass_bottom_up(rec: &SessionRec, stats: &mut BuStats) -> Vec<Finding> {
   if rec.aborted.is_none() && end < evs.len() {
     for y in &scheduled {
       out.push(f("C04", "scheduled-never-executed", end, format!("T{} was found affected (a dependency was reported inconsistent) but was not executed before the bottom-up build returned", y)));
+    }
+    for (y, at) in &failed_check_owners {
+      out.push(f("C18", "failing-check-but-not-executed", *at, format!("a checker of T{} returned an error during bottom-up scheduling but T{} was not executed in that build", y, y)));
     }
   }
   out
